@@ -54,6 +54,10 @@ claim("C05", "constant table vs README/protocol table, precedence read off the C
       "Static rules over engine/base-server.go, engine/server.go, types/serve.go: the six error variables equal the documented (and README) table; Verify's reject returns are ordered by pass-edge dominance exactly as the documented precedence and the admitting return cannot bypass any check of its branch; Verify runs only after middleware success and Handshake only when admitted, the revision check dominating every session-creating action; abortRequest maps 403 iff FORBIDDEN and marshals {code, default-or-hook message} after setting headers and status; every rejection emits connection_error exactly once (call-site classification, one named exception); no reject path creates a session; ComputePath yields a slash-terminated pattern on every feasible path unless AddTrailingSlash() is explicitly false, Attach mounts it, ServeMux cleans, matches exact-then-prefix and falls back to the default handler; upgrade-time rejections are closed with the message. The full decision table over concrete request bytes is not decided.",
       TB, "DESIGN.md §3 C05")
 
+claim("C06", "field table of the open packet with resolved accessor chains, must-precede queries, reaching-definition rule for the per-session initial packet, constant tables of the transport builders, sibling agreement of the three revision discriminators",
+      "Static rules over engine/socket.go, engine/base-server.go, transports/builder.go, transports/transport.go: the open packet has exactly sid/upgrades/pingInterval/pingTimeout/maxPayload fed by s.id, getAvailableUpgrades and the Opts() accessors (intervals divided by time.Millisecond); transition ≺ SetSid ≺ OPEN (first packet, marshalled map) ≺ initial MESSAGE (a per-session Clone of the shared reader) ≺ Emit(open) ≺ heartbeat arming; upgrades = builder targets of the current transport filtered by enabled transports, empty when upgrades are disabled, builder table polling→{websocket,webtransport}; exactly one NewSocket/Store/Emit(connection) on the success path and none on reject paths; protocol = EIO==\"4\"?4:3 passed to NewSocket, the parser chosen on the same predicate, heartbeat mode keyed on s.protocol; per-transport limits handed over from the same option accessors. Numeric equality advertised = enforced at run time and JSON rendering are not decided.",
+      TB, "DESIGN.md §3 C06")
+
 UNDER_CONSTRUCTION = "static rule set designed in DESIGN.md §3 but its checker is not built yet in this revision; not claimed until it is"
 
 def main():
